@@ -53,7 +53,10 @@ def grid_ops():
                              (0, 3, b"k", b"+", e, nr, f), (0, 4, b"k", b"-", e, nr, f), (0, 3, b"q", b"+", e, nr, f), (3, b"k", None),
                              (1, [(b"a", b"1"), (b"b", "two"), ("c", 3)], e, nr, f), (7, False, [b"a", b"b", "c", b"zz"]), (8, False, [b"a", "c"]),
                              (10, False, [b"a", b"zz", b"b"], nr), (7, True, [b"a", b"b", "c"]), (7, False, []), (10, False, [], nr),
-                             (13, b"zz", e, nr), (11, b"zz", 1, False), (2, b"zz", b"v", b"5", e, False, f)])
+                             (13, b"zz", e, nr), (11, b"zz", 1, False), (2, b"zz", b"v", b"5", e, False, f),
+                             # a key named more than once: whatever a plain Client sends for it, the wrappers send too
+                             (1, [(b"a", b"1"), (b"b", b"2")], e, False, f), (7, False, [b"b", b"a", b"b"]), (8, True, [b"a", b"a"]),
+                             (7, True, [b"a", b"zz", b"a", b"b"]), (10, False, [b"a", b"a"], False)])
     return seqs
 
 
@@ -141,6 +144,10 @@ def compare(stack, c, ops):
     ref = run_stack("Client", c, ops)
     if "attempts=3" in stack and any(r[0] == "e" for r in ref[0]):
         return None         # a failing call is retried by design (C17): histories diverge legitimately
+    if any(e[0] == "bad" and e[1].endswith(b" noreply") for e in ref[3]):
+        # the strict reference server answered ERROR to a command that asked for no reply (an out-of-range delta): the
+        # plain Client's own stream is out of step from there on, which is not one of C16's server states
+        return None
     got = run_stack(stack, c, ops)
     if got[0] != ref[0]:
         i = next(i for i in range(len(ops)) if i >= len(got[0]) or got[0][i] != ref[0][i])
